@@ -29,7 +29,14 @@ PrefixTable ==
       https    |-> [text |-> "https://example.com/", class |-> "scheme", sep |-> "/"],
       ssh      |-> [text |-> "ssh://git@example.com/", class |-> "scheme", sep |-> "/"],
       file     |-> [text |-> "file:///",          class |-> "scheme", sep |-> "/"],
-      scp      |-> [text |-> "git@example.com:",  class |-> "scp",    sep |-> "/"] ]
+      scp      |-> [text |-> "git@example.com:",  class |-> "scp",    sep |-> "/"],
+      \* the same forms in spellings that a hand-written classifier, or a re-serialising one, gets wrong
+      httpsU   |-> [text |-> "HTTPS://Example.com/", class |-> "scheme", sep |-> "/"],   \* as written: the scheme is NOT lower-cased
+      sshU     |-> [text |-> "Ssh://git@example.com/", class |-> "scheme", sep |-> "/"],
+      drivefwd |-> [text |-> "C:/",               class |-> "scheme", sep |-> "/"],
+      scpip    |-> [text |-> "10.0.0.5:",         class |-> "scp",    sep |-> "/"],      \* scp-style without user@, host starts with a digit
+      scphy    |-> [text |-> "-host:",            class |-> "scp",    sep |-> "/"],
+      hostcol  |-> [text |-> "git.example.org:",  class |-> "scheme", sep |-> "/"] ]     \* reads as scheme + opaque part
 Prefixes == DOMAIN PrefixTable
 
 RefPart(s) == IF Len(s.ref) = 0 THEN "" ELSE "#" \o Join(s.ref, "/")
